@@ -2,7 +2,7 @@
 from __future__ import annotations
 import json, math, random
 import numpy as np
-from ..core import CheckSpec, Outcome, Lean
+from ..core import CheckSpec, Outcome, Lean, silence_fd1
 
 def gen(rng: random.Random, tier: str):
     jobs = {"quick": [1, 1, 2], "thorough": [1, 1, 2, 2, 4, 8, 16]}[tier]
@@ -22,6 +22,58 @@ def gen(rng: random.Random, tier: str):
     for nj in sorted(set([1, top])):
         for order in (["predict", "recommend"], ["recommend", "predict"], ["score", "recommend", "predict"]):
             yield {"kind": "multi", "n_jobs": nj, "order": order, "n_keys": rng.choice([3, 5]), "seed": rng.randrange(10**6)}
+
+def lean_batch_trace():
+    """Record, from the running code, (1) the invocations `BatchPipelineRunner.recommend / predict / score` register, (2) the `run_all` calls the
+    worker `_run_pipeline` makes for one key with those invocations (a recording stand-in for the pipeline), and (3) the length `batch.recommend`
+    hands to the runner for n = None, 0, 3 — as Lean data for `LK/Proofs/BatchTraceC12.lean`."""
+    from lenskit.batch import BatchPipelineRunner
+    from lenskit.batch import _runner as br
+    from lenskit import batch as lb
+    from lenskit.data import ItemList
+    from lenskit.data.collection import UserIDKey
+    def arg(v, test):
+        if v is None: return "Arg.none"
+        if v is test: return "Arg.testItems"
+        if isinstance(v, bool): raise ValueError("unexpected boolean input")
+        if isinstance(v, int): return f"Arg.int ({v})"
+        raise ValueError(f"unexpected input value {v!r}")
+    q = lambda x: '"' + str(x) + '"'
+    def inv_lean(iv):
+        if len(iv.components) != 1: raise ValueError("invocation with several components")
+        (c, o), = iv.components.items()
+        extra = ", ".join(f"({q(k)}, {arg(v, None)})" for k, v in iv.extra_inputs.items())
+        return f"{{ comp := {q(c)}, output := {q(o)}, testItems := {'true' if iv.items == 'test-items' else 'false'}, extra := [{extra}] }}"
+    runner = BatchPipelineRunner(n_jobs=1); runner.recommend(n=0); runner.predict(); runner.score()
+    invs = list(runner.invocations)
+    calls = []
+    class Rec:
+        name = "recorder"
+        def run_all(self, *nodes, **inputs):
+            calls.append((list(nodes), dict(inputs))); return {n_: None for n_ in nodes}
+    test = ItemList(item_ids=[1, 2, 3]); USER = 4242
+    key, result = br._run_pipeline((Rec(), invs), (UserIDKey(USER), test))
+    def call_lean(nodes, inputs):
+        ins = ", ".join(f"({q(k)}, {'Arg.user' if (k == 'query' and v == USER) else arg(v, test)})" for k, v in sorted(inputs.items()))
+        return f"{{ nodes := [{', '.join(q(n_) for n_ in nodes)}], inputs := [{ins}] }}"
+    # what batch.recommend registers for a given n
+    fwd = []
+    class Stop(Exception): pass
+    orig_run = BatchPipelineRunner.run
+    def fake_run(self, pipeline, users): fwd.append(list(self.invocations)); raise Stop()
+    BatchPipelineRunner.run = fake_run
+    try:
+        for n in (None, 0, 3):
+            try: lb.recommend(None, [1], n)
+            except Stop: pass
+    finally:
+        BatchPipelineRunner.run = orig_run
+    return ("import LK.Model.BatchWorker\n/-! GENERATED on every run of `./check C12` (harness/lkv/props/c12.py `lean_batch_trace`): recorded from the running code; do not edit. -/\n"
+            "namespace LK.Gen.BatchTraceC12\nopen LK.BatchWorker\n\n"
+            "/-- registered by `runner.recommend(n=0); runner.predict(); runner.score()` -/\ndef observedInvocations : List Inv :=\n  [" + ",\n   ".join(inv_lean(i) for i in invs) + "]\n\n"
+            "/-- the `run_all` calls of `_run_pipeline` for one user key with those invocations -/\ndef observedCalls : List Call :=\n  [" + ",\n   ".join(call_lean(n_, i) for n_, i in calls) + "]\n\n"
+            f"/-- the output names the worker filed its results under -/\ndef observedOutputs : List String := [{', '.join(q(k) for k in result)}]\n\n"
+            "/-- what `batch.recommend(pipe, users, n)` registers for n = None, 0, 3 -/\ndef observedForwarding : List (List Inv) :=\n  [" + ",\n   ".join("[" + ", ".join(inv_lean(i) for i in f) + "]" for f in fwd) + "]\n\nend LK.Gen.BatchTraceC12\n")
 
 def _canon(il):
     return [(int(i), None if math.isnan(s) else float(s)) for i, s in zip(il.ids(), il.scores())] if len(il) else []
@@ -47,7 +99,8 @@ def run(case: dict, lean: Lean) -> Outcome:
         m = lean.call("c12.batch", {"keys": [int(t) for t in tasks], "outcomes": [None if v is None else tag(repr(v)) for v in seq_vals], "order": order})
         real = None
         try:
-            with invoker(model, work, n_jobs=nj) as inv: out = list(inv.map(tasks))
+            with silence_fd1():
+                with invoker(model, work, n_jobs=nj) as inv: out = list(inv.map(tasks))
             real = {"ok": [[int(t), tag(repr(o))] for t, o in zip(tasks, out)]} if len(out) == len(tasks) else {"ok": "wrong length"}
             if want_fail: failed.append("a failing task did not surface as an error")
             elif out != [work(model, x) for x in tasks]: failed.append("results differ from f(model, x) in task order (or the payload changed on the way)")
@@ -129,7 +182,8 @@ def run(case: dict, lean: Lean) -> Outcome:
     except ValueError:
         seq_failed = True
     try:
-        out = (batch.recommend(pipe, arg, n_req, n_jobs=nj) if op == "recommend" else batch.predict(pipe, arg, n_jobs=nj) if op == "predict" else batch.score(pipe, arg, n_jobs=nj))
+        with silence_fd1():
+            out = (batch.recommend(pipe, arg, n_req, n_jobs=nj) if op == "recommend" else batch.predict(pipe, arg, n_jobs=nj) if op == "predict" else batch.score(pipe, arg, n_jobs=nj))
         if seq_failed: failed.append("the single-query operation fails for a key but the batch run reports nothing")
         else:
             got_keys = [int(k.user_id) for k in out.keys()]
